@@ -8,6 +8,8 @@ import CkbVerif.Model.Frame
 Stream `wire`:
   ver <Type> <s|c> <hex>     -> ok | err
   gate <sync|relay> <hex>    -> strict <id> | compat <id> | too-many-fields | malformed
+Stream `recv` (the real `Synchronizer::received` / `Relayer::received`, harness/hnode/src/c16_recv.rs):
+  recv <sync|relay> <hex>    -> pass <id> | too-many-fields | malformed
 Stream `cb`:
   recon root=<ids|bad> ph=<ok|bad> eh=<ok|bad> sids=<ids> pre=<i:t;…> recv=<ids> uncles=<n> upeer=<idx list> ext=<0|1> props=<n>
        -> verify-err <kind> | block txs=<ids> hdr=<same|reset> | missing txs=<idx> uncles=<idx> | collided | unmatched
@@ -15,6 +17,18 @@ Stream `cb`:
 Stream `frame`:
   dec <hex>                  -> err | raw <len> | snappy <len>
   cmp <len>                  -> raw | snappy
+Stream `codec` (the production `LengthDelimitedCodecWithCompress`, `Model/Frame.lean` second half):
+  conn <maxFrame> <0|1>      -> ok                   a new connection (decoder in its initial state)
+  feed <spec>                -> <items|-> <pending <buffered bytes> | err | closed>
+       the next chunk of bytes arrives; the frames `decode` delivers until it answers `Ok(None)` /
+       `Err`; item = `<len>:<fnv-1a-64 of the delivered buffer>`; `closed` = a chunk after an error
+  enc <clen> <spec>          -> err | flag=<0|128> len=<frame length>
+       `encode` of the payload `spec`, whose snappy compression is `clen` bytes long
+  spec = `,`-separated segments, each `<hex>` or `<hex>*<count>` (the pattern repeated), `-` = empty.
+  Snappy itself is not part of `Model/Frame.lean` (the theorems take the decoder as a parameter);
+  the driver finishes `snappy` items with its own decoder of the snappy raw format
+  (`snappyDecode` below) and closes the connection at the first item the decoder refuses —
+  exactly what `decode` does (`Err(InvalidData)`), the remaining items of the model are dropped.
 -/
 namespace CkbVerif.Driver.C16
 open CkbVerif.Driver CkbVerif.Molecule CkbVerif.Compact
@@ -31,6 +45,18 @@ def stepWire (ts : List String) : String :=
     match C15.lookup t, C15.modeOf m, C15.unhex hx with
     | some s, some c, some bs => if verify c s bs then "ok" else "err"
     | _, _, _ => "bad-op"
+  | ["recv", which, hx] =>
+    -- the same gate seen from outside `received`: did the message go on to `process`?
+    match C15.unhex hx with
+    | some bs =>
+      let g := if which = "sync" then some (gateSync bs) else if which = "relay" then some (gateRelay bs) else none
+      match g with
+      | some (.strict id) => s!"pass {id}"
+      | some (.compat id) => s!"pass {id}"
+      | some .tooManyFields => "too-many-fields"
+      | some .malformed => "malformed"
+      | none => "bad-op"
+    | none => "bad-op"
   | ["gate", which, hx] =>
     match C15.unhex hx with
     | some bs =>
@@ -136,8 +162,120 @@ def stepFrame (ts : List String) : String :=
     | none => "bad-op"
   | _ => "bad-op"
 
+/-! ### stream `codec` -/
+
+def fnvList (l : List UInt8) : UInt64 :=
+  l.foldl (fun h b => (h ^^^ b.toUInt64) * 1099511628211) 14695981039346656037
+
+def fnvArr (a : ByteArray) : UInt64 :=
+  a.foldl (fun h b => (h ^^^ b.toUInt64) * 1099511628211) 14695981039346656037
+
+/-- little-endian value of `n` bytes at `i` (`none` when the input ends before) -/
+def leAt (inp : ByteArray) (i n : Nat) : Option Nat :=
+  if i + n ≤ inp.size then
+    some ((List.range n).foldr (fun k acc => acc * 256 + (inp.get! (i + k)).toNat) 0)
+  else none
+
+/-- the snappy raw format (format_description.txt): elements after the length preamble -/
+partial def snappyLoop (inp : ByteArray) (i : Nat) (out : ByteArray) (want : Nat) : Option ByteArray :=
+  if i ≥ inp.size then (if out.size = want then some out else none) else
+  let tag := (inp.get! i).toNat
+  let ty := tag % 4
+  if ty = 0 then
+    -- literal
+    let l6 := tag / 4
+    let r : Option (Nat × Nat) :=
+      if l6 < 60 then some (l6 + 1, i + 1)
+      else if i + 1 + 4 > inp.size then none  -- snap-1.1.1 `read_literal`: four bytes must be left, whatever `nb` is
+      else
+        let nb := l6 - 59
+        (leAt inp (i + 1) nb).map (fun v => (v + 1, i + 1 + nb))
+    match r with
+    | none => none
+    | some (len, j) =>
+      if j + len > inp.size ∨ out.size + len > want then none
+      else snappyLoop inp (j + len) (out.append (inp.extract j (j + len))) want
+  else
+    let r : Option (Nat × Nat × Nat) :=
+      if ty = 1 then (leAt inp (i + 1) 1).map (fun b => (4 + (tag / 4) % 8, (tag / 32) * 256 + b, i + 2))
+      else if ty = 2 then (leAt inp (i + 1) 2).map (fun o => (1 + tag / 4, o, i + 3))
+      else (leAt inp (i + 1) 4).map (fun o => (1 + tag / 4, o, i + 5))
+    match r with
+    | none => none
+    | some (len, off, j) =>
+      if off = 0 ∨ off > out.size ∨ out.size + len > want then none
+      else
+        let start := out.size - off
+        let out' := (List.range len).foldl (fun (o : ByteArray) k => o.push (o.get! (start + k))) out
+        snappyLoop inp j out' want
+
+/-- `snap::raw::Decoder::decompress` into a buffer of the announced length -/
+def snappyDecode (body : List UInt8) : Option ByteArray :=
+  let (n, hl) := CkbVerif.Frame.readVaru64 body
+  if hl = 0 then none else
+  let inp : ByteArray := ⟨(body.drop hl).toArray⟩
+  snappyLoop inp 0 (ByteArray.emptyWithCapacity n) n
+
+def parseSpec (s : String) : Option (List UInt8) :=
+  if s = "-" then some [] else
+  (s.splitOn ",").foldlM (fun (acc : List UInt8) seg =>
+    match seg.splitOn "*" with
+    | [hx] => (C15.unhex hx).map (acc ++ ·)
+    | [hx, cnt] =>
+      match C15.unhex hx, parseNat? cnt with
+      | some pat, some c =>
+        match pat with
+        | [b] => some (acc ++ List.replicate c b)
+        | _ => some (acc ++ (List.replicate c pat).flatten)
+      | _, _ => none
+    | _ => none) []
+
+structure CodecSt where
+  cfg : CkbVerif.Frame.Cfg := ⟨0, false⟩
+  conn : CkbVerif.Frame.Conn := CkbVerif.Frame.Conn.init
+  closed : Bool := false
+
+/-- the items of one `feed`, finished with the snappy decoder; `true` = the decoder refused one -/
+def showItems : List CkbVerif.Frame.Item → List String → List String × Bool
+  | [], acc => (acc.reverse, false)
+  | .raw p :: rest, acc => showItems rest (s!"{p.length}:{fnvList p}" :: acc)
+  | .snappy n body :: rest, acc =>
+    match snappyDecode body with
+    | some out => if out.size = n then showItems rest (s!"{out.size}:{fnvArr out}" :: acc) else (acc.reverse, true)
+    | none => (acc.reverse, true)
+
+def stepCodec (st : CodecSt) (ts : List String) : CodecSt × String :=
+  match ts with
+  | ["conn", m, c] =>
+    match parseNat? m with
+    | some m => ({ cfg := ⟨m, c = "1"⟩ }, "ok")
+    | none => (st, "bad-op")
+  | ["feed", spec] =>
+    match parseSpec spec with
+    | none => (st, "bad-op")
+    | some chunk =>
+      if st.closed then (st, "- closed") else
+      let before := st.conn.items.length
+      let conn := CkbVerif.Frame.feed st.cfg st.conn chunk
+      let (shown, refused) := showItems (conn.items.drop before) []
+      let itemsS := if shown.isEmpty then "-" else ",".intercalate shown
+      if refused then ({ st with conn := ⟨[], .err⟩, closed := true }, itemsS ++ " err")
+      else
+        match conn.state with
+        | .err => ({ st with conn := ⟨[], .err⟩, closed := true }, itemsS ++ " err")
+        | .pending s buf => ({ st with conn := ⟨[], .pending s buf⟩ }, s!"{itemsS} pending {buf.length}")
+  | ["enc", clen, spec] =>
+    match parseSpec spec, parseNat? clen with
+    | some data, some clen =>
+      match CkbVerif.Frame.encode (fun _ => List.replicate clen 0) st.cfg data with
+      | none => (st, "err")
+      | some w => (st, s!"flag={((w.drop 4).headD 0).toNat} len={w.length}")
+    | _, _ => (st, "bad-op")
+  | _ => (st, "bad-op")
+
 def main (args : List String) : IO UInt32 :=
   match args with
+  | ["codec"] => runLines ({} : CodecSt) stepCodec
   | ["cb"] => runLines () (fun _ ts => ((), stepCb ts))
   | ["frame"] => runLines () (fun _ ts => ((), stepFrame ts))
   | _ => runLines () (fun _ ts => ((), stepWire ts))
